@@ -64,7 +64,7 @@ def draw_case(data, tier):
         rl = r if isinstance(r, list) else [r] * d
         opts["shape"] = [max(n, 2 * rr + 1) for n, rr in zip(opts["shape"], rl)]
     else:
-        opts = convgen.draw_conv_options(data, d, symmetric_only=True, unit_stride=True, max_extra=2, max_ext=5 if d == 2 else 3)
+        opts = convgen.draw_conv_options(data, d, symmetric_only=True, unit_stride=True, max_extra=2, max_ext=5 if d == 2 else 4)
     kmax = 3 if d == 2 else 2
     ktot = data.draw(st.sampled_from(list(range(kmax + 1)) + [1, 2]), label="ktot")
     k = data.draw(st.integers(0, ktot), label="k")
